@@ -71,3 +71,17 @@ Theorem C01_a2c_consecutive_rollouts : forall T1 T2 vs cur,
   a2c_collect (T1 + T2) vs cur = (rows1 ++ rows2, vs2, last2).
 Proof. exact a2c_collect_app. Qed.
 Print Assumptions C01_a2c_consecutive_rollouts.
+
+(** The tabular loops (q_learning, sarsa, double_q_learning, monte_carlo, dynaq) ask the behaviour policy at the
+    top of every iteration: for every script and every number of steps, each executed action was computed
+    from the observation the environment returned last - the reset observation at the start of an episode.
+    Carrying the action chosen after the step over an episode end (no new choice after reset) breaks this. *)
+Theorem C01_tabular_action_from_current_observation : forall (script : list (nat * endk)) (n : nat),
+  Forall (fun p => fst p = snd p) (a_used (act_run ActFresh n (act_init script))) /\
+  act_flags ActFresh script n = repeat true n.
+Proof. exact (fun script n => conj (act_fresh_conditioned script n) (act_fresh_flags script n)). Qed.
+Print Assumptions C01_tabular_action_from_current_observation.
+Theorem C01_tabular_carried_action_refuted :
+  exists script n, ~ Forall (fun p => fst p = snd p) (a_used (act_run ActCarried n (act_init script))).
+Proof. exact act_carried_refuted. Qed.
+Print Assumptions C01_tabular_carried_action_refuted.
